@@ -29,5 +29,6 @@ func main() {
 	tr := hx.NewTrace(os.Args[2])
 	defer tr.Close()
 	// "stat" is accepted too so that a C16 scenario may put the real statistic slots among the recorders
-	ecx.NewEngine(clk, tr, "chain", "stat").Run(scn)
+	// "multi": several chains alive at once, obtained from the library's constructors (incl. the default and the global chain)
+	ecx.NewEngine(clk, tr, "chain", "stat", "multi").Run(scn)
 }
